@@ -199,7 +199,7 @@ def c14(run):
         if run.tier == 'thorough':
             iv = list(range(1, 133621))
         else:
-            iv = sorted(set(list(range(1, 1100)) + [r.randint(1, 133620) for _ in range(3000)] + list(range(2085, 2100)) + list(range(66820, 67900, 7)) + [133619, 133620]))
+            iv = sorted(set(list(range(1, 1100)) + [r.randint(1, 133620) for _ in range(3000)] + list(range(2085, 2100)) + list(range(66820, 67900, 7)) + list(range(67845, 67870)) + list(range(66800, 66830)) + [133619, 133620]))
         g.beacon(iv)
     return C.execute(run, gen, monitor=chain(M.mon_expect, mon_abort_generic), cone={'fsk_ook_tx_start_beacon', 'fsk_ook_tx_stop_beacon'})
 
